@@ -207,6 +207,32 @@ def check(ctx: Ctx) -> None:
     # ---- .6 Tag delegates ------------------------------------------------------------------------------------------------------
     for meth in ("insert", "extend", "append"):
         _delegates(ctx, I, meth)
+    own_storage(ctx, "C14.own")
+
+
+def own_storage(ctx: Any, rule: str) -> None:
+    """The storage of a child list is a list of its own: no operation replaces `.data` by a list that somebody else holds (an
+    argument's storage, or the result of a helper that may hand back its argument) - otherwise a later append/insert on one
+    list shows up in the other, and the children are no longer the flattening of what was supplied to *this* list."""
+    from ..ownership import Ownership
+    prog = ctx.prog
+    O = Ownership(prog, skip_modules=("htmltools._jsx",))
+    entries = [q for q in ("TagList.__init__", "TagList.extend", "TagList.append", "TagList.insert", "TagList.__iadd__", "TagList.__add__",
+                           "TagList.__radd__", "TagList.tagify", "Tag.extend", "Tag.append", "Tag.insert", "Tag.__init__") if prog.has_function(CORE, q)]
+    O.solve(entries)
+    errs = [(q, O.sums[q].error) for q in O.analysed if O.sums[q].error]
+    ctx.require(not errs, "ownership analysis cannot model: " + "; ".join(f"{q}: {e}" for q, e in errs[:3]))
+    n = 0
+    for q in O.analysed:
+        sm = O.sums.get(q)
+        if sm is None:
+            continue
+        n += 1
+        for st in sm.__dict__.get("adopts", []):
+            ctx.fail(rule, f"{CORE}:{q}", st.text(), f"`{st.text()}` in {q} makes {st.target} the storage of `{st.root}`: that list belongs to the caller or to another "
+                     f"child list (a helper on the way hands back its argument's own list), so the two lists change together from here on",
+                     witness="a = TagList('x'); b = TagList(); b.extend(a); b.append('y'); list(a)", line=getattr(st.node, "lineno", None))
+    ctx.ok(rule, "no child-list operation adopts a foreign list as its storage", functions=n)
 
 
 def operation_obligations(ctx: Any, I: Interp) -> None:
